@@ -90,8 +90,8 @@ CHECKS = {
         "level": "fault_enumeration",
         "technique": "exhaustive fault-point enumeration (every Read/Write index of the exchange x fault kind x follow-up x reachability) inside testing/synctest bubbles, plus rapid-drawn faults on later connections; hang verdict from quiescence, goroutine census",
         "level_text": "Fault enumeration: for every I/O operation index of connect-time negotiation and two exchanges (7 reads, 3 writes), every failure kind (EOF, closed, reset, short write), the server closing right after each reply and the server vanishing exactly when a request is handed to the write loop (hook), crossed with negotiation on/off, reachability afterwards and five follow-ups, one deterministic execution runs in a synctest bubble: 'the call does not return and nothing can make progress' is a detectable state, so hangs are decided without wall-clock. Oracle: complete own response or error, never two consecutive failed calls on a reachable server, at most 4 transmissions per request, closed means closed, census 0. A rapid job moves the fault to later connections and larger indices.",
-        "level_note": "Single caller (the client serialises calls under one lock; concurrent callers are covered by C10's real-time harness); I/O indices are those of the client end of the in-memory connection.",
-        "jobs": [plain("client", "TestC11Faults", timeout_s={"quick": 600, "thorough": 900}), rapid("client", "TestC11Random", 1500, 10000), rapid("client", "TestC11DefaultDialer", 150, 1500, shards=4)],
+        "level_note": "One caller inside the bubbles (a goroutine waiting for the client's sync.Mutex is not durably blocked, so a second caller gets real scheduling there - fault 'second caller during a re-dial' - and Close with callers queued behind a call in flight is a real-time job of its own, TestC11CloseQueued); concurrent callers are otherwise covered by C10's real-time harness; I/O indices are those of the client end of the in-memory connection.",
+        "jobs": [plain("client", "TestC11Faults", timeout_s={"quick": 600, "thorough": 900}), rapid("client", "TestC11Random", 1500, 10000), rapid("client", "TestC11DefaultDialer", 150, 1500, shards=4), rapid("client", "TestC11CloseQueued", 40, 400)],
         "assumptions": ["an io.Reader/io.Writer fault is sticky: once a connection has failed every later call on it fails too"],
     },
     "C12": {
@@ -115,7 +115,7 @@ CHECKS = {
         "technique": "property-based testing (rapid) over generated stage programs, trace equality against a recursive reference interpreter, concurrent requests sharing the chain",
         "level_text": "Generated-program exploration: every stage of a chain is a small program over its continuation (0..3 calls, substituted message, derived context, last/first/substituted/error result); the same programs are run through the real client chain (scripted in-memory server as transport), the server message chain and the server batch-item chain, and through a 30-line recursive interpreter of the compositional semantics; event traces and the caller's result must be equal for every concurrent request.",
         "level_note": "For the client chain the context reaching the transport is not observable; core executions are counted at the scripted server. Batch-item stages return their error with an item of their own or with a nil item (the usual Go form).",
-        "jobs": [dict(rapid("server", "TestC19Chains", 4000, 30000), race=True)],
+        "jobs": [dict(rapid("server", "TestC19Chains", 4000, 30000), race=True), dict(rapid("server", "TestC19Hedged", 2000, 20000), race=True)],
         "assumptions": [],
     },
     "C14": {
